@@ -201,5 +201,21 @@ theorem step_measure {s s' : State} {a : Action} (ht : TokInv s) (hp : ∀ p, p 
       apply lt_of_pipeMeasure_lt s hg.1
       simp only [pipeMeasure, rMeasure, cMeasure, rMeasureOf, cMeasureOf, hg.2]; simp
     · contradiction
+  | rTrunc p u =>
+    simp only [step] at hs
+    split at hs
+    · rename_i hg; injection hs with hs; subst hs
+      apply lt_of_pipeMeasure_lt s hg.1
+      obtain ⟨_, _, hlt, hc⟩ := hg
+      have hb := (hp p ‹_›).batchPos
+      simp only [pipeMeasure, rMeasure, cMeasure]
+      rcases hc with hc | ⟨hc | hc, hcur⟩
+      · by_cases hu : u = 0
+        · simp only [hc, hu, and_self, if_true, rMeasureOf]; omega
+        · simp only [hc, hu, and_false, if_false, rMeasureOf]; omega
+      · simp only [hc, rMeasureOf]; simp; omega
+      · simp only [Pipe.cur] at hcur
+        simp only [hc, rMeasureOf]; simp; omega
+    · contradiction
 
 end Octo.JsonPipe
